@@ -380,6 +380,20 @@ REFILLS = ("ReadAdapter::non_empty_reader_buffer_mut", "ReadAdapter::non_empty_r
 LOCAL_VIEWS = ("ReadAdapter::buffer", "ReadAdapter::non_empty_buffer")
 
 
+def _is_local_view(g, w):
+    """does the slice look at the adapter's own unread bytes: through buffer()/non_empty_buffer(), or directly as buf[pos..]"""
+    if any(x.endswith(LOCAL_VIEWS) for x in g.callee_names_in(w)):
+        return True
+    flds = {fl for a, fl in g.fields_in(w) if a == RA}
+    return {"buf", "pos"} <= flds and "reader" not in flds
+
+
+def _is_reader_view(g, w):
+    if any(x.endswith(READER_VIEWS) for x in g.callee_names_in(w)):
+        return True
+    return any(a == RA and fl == "reader" for a, fl in g.fields_in(w))
+
+
 def _must_edges(f, target_block):
     """switch edges (block, successor, value-or-'else') that every path from entry to target_block takes"""
     res = []
@@ -430,8 +444,8 @@ def refill_rule(ck, prog, ra_methods):
                     for op, l, r in ((cc.op, cc.lhs, cc.rhs), (FLIPS[cc.op], cc.rhs, cc.lhs)):
                         lw = g.walk(ops=[l], at=c.node, through=lambda tt: not (callee_name(tt) or "").endswith(LOCAL_VIEWS))
                         rw = g.walk(ops=[r], at=c.node, through=lambda tt: not (callee_name(tt) or "").endswith(LOCAL_VIEWS))
-                        l_local = any(x.endswith(LOCAL_VIEWS) for x in g.callee_names_in(lw))
-                        r_local = any(x.endswith(LOCAL_VIEWS) for x in g.callee_names_in(rw))
+                        l_local = _is_local_view(g, lw)
+                        r_local = _is_local_view(g, rw)
                         if l_local and not r_local:
                             seen_conds.append(f"buffered {op} requested")
                             if op == "<":
@@ -440,7 +454,7 @@ def refill_rule(ck, prog, ra_methods):
                     # emptiness of the local view: `match buffer().len() { 0 => .. }`, `non_empty_buffer()` is None, `buffer().first()` is None
                     dl = op_local(t["d"], pure=True)
                     w = g.walk(ops=[t["d"]], at=(b, T), through=lambda tt: not (callee_name(tt) or "").endswith(LOCAL_VIEWS))
-                    if any(x.endswith(LOCAL_VIEWS) for x in g.callee_names_in(w)):
+                    if _is_local_view(g, w):
                         is_zero_edge = v == "0" or (v == "else" and listed == ["1"] and t.get("dty") == "isize")
                         if c.kind == "discr" and is_zero_edge:
                             ok = True   # Option discriminant 0 = None
@@ -519,9 +533,8 @@ def amount_rule(ck, prog, ra_methods):
         ordinal = 0
         for b, t in copies:
             w = g.walk(ops=[t["args"][0]], at=(b, T), through=lambda tt: not (callee_name(tt) or "").endswith(LOCAL_VIEWS + READER_VIEWS))
-            names = g.callee_names_in(w)
-            from_local = any(x.endswith(LOCAL_VIEWS) for x in names)
-            from_reader = any(x.endswith(READER_VIEWS) for x in names)
+            from_reader = _is_reader_view(g, w)
+            from_local = _is_local_view(g, w) and not from_reader
             if from_local == from_reader:
                 continue  # compaction inside the spill buffer etc.: not a copy out to the caller
             ordinal += 1
